@@ -111,13 +111,14 @@ impl Sm9EncMasterKey {
         let mut c1 = SM9_POINT_MONT_P1.point_mul(&t);
         c1 = c1.point_add(&self.ppube);
 
+        let q = c1;
         let mut k = vec![];
         loop {
             // A2: rand r in [1, N-1]
             let r = sm9_random_u256(&SM9_N_MINUS_ONE);
 
             // A3: C1 = r * Q
-            c1 = c1.point_mul(&r);
+            c1 = q.point_mul(&r);
             let cbuf = c1.to_bytes_be();
             let cbuf = cbuf.as_slice();
 
@@ -136,11 +137,9 @@ impl Sm9EncMasterKey {
             k_append.extend_from_slice(gbuf);
             k_append.extend_from_slice(idb);
             k = kdf(&k_append, (255 + 32) as usize);
-            fn is_zero(x: &Vec<u8>) -> bool {
-                x.iter().all(|&byte| byte == 0)
-            }
-
-            if !is_zero(&k) {
+            // if K1 (the first |M| bytes of K) is all zero, go back to A2
+            let k1_len = data.len().min(k.len());
+            if data.is_empty() || !k[..k1_len].iter().all(|&byte| byte == 0) {
                 break;
             }
         }
